@@ -1061,6 +1061,8 @@ class Array:
         indices = np.asarray(to_iterable(indices), dtype=np.intp)
         if len(axes) != len(indices):
             raise ValueError('len(axes) != len(indices)')
+        if len(set(axes)) != len(axes):
+            raise ValueError('got an axis multiple times: ' + str(axes))
         if indices.ndim != 1:
             raise ValueError('indices may only contain ints')
         res = self.copy(deep=True)
